@@ -44,6 +44,8 @@ THEOREMS = [
     "Optyx.Props.LPTie.walk_unique",
     "Optyx.Props.LPFastTie.fastBinop_eq",
     "Optyx.Props.LPFastTie.extractAll_eq",
+    "Optyx.Props.LPFastTie.extractLinearCoefficient_eq",
+    "Optyx.Props.LPFastTie.extractConstantTerm_eq",
     "Optyx.Props.LPFastTie.aligned_iff",
     "Optyx.Props.PinsC05.anchors",
 ]
